@@ -48,7 +48,7 @@ CHECKS = {
              "carrying its second, carrying the relation; the node map stays sound, graphStep_mapOk) and c14_edges_exact (in a document "
              "without influence relations the edges are exactly the relations with both endpoints, once each, in order); table obligations c14_inferable, "
              "t_inferred_class, t_only_influence_uninferable. Node list, edge list and the converted-back document of the real "
-             "MultiDiGraph are compared with the model and with an independent specification computed from the unified document. There and back (Props/C14C): GInv is established by the element phase and kept by the relation loop; c14_edgeRecs_perm and c14_there_and_back - graph_to_prov hands to the new document the declared nodes and a permutation of exactly the relations with both endpoints.",
+             "MultiDiGraph are compared with the model and with an independent specification computed from the unified document. There and back (Props/C14C): GInv is established by the element phase and kept by the relation loop; c14_edgeRecs_perm and c14_there_and_back - graph_to_prov hands to the new document the declared nodes and a permutation of exactly the relations with both endpoints. On the heap (Props/C14D): c14_roundtrip_heap - graph_to_prov builds a new document holding == copies of the declared elements followed by == copies of a permutation of exactly the relations with both endpoints; nothing that existed is written.",
         note=A_COMMON + " networkx is assumed to be a node set + edge multiset with adjacency-order iteration (A-EXT). Influence relations "
              "with an undeclared endpoint may or may not be drawn (documented exception; order dependent).",
         technique="Lean 4 induction over the relation fold + node/edge list correspondence with networkx + independent graph spec",
